@@ -52,6 +52,22 @@ def main():
                            'repo_head': sh('git', '-C', '/repo', 'rev-parse', '--short', 'HEAD').stdout.strip(), 'runs': res}
         json.dump(meta, open(os.path.join(d, 'meta.json'), 'w'), indent=1)
         rows.append((sid, meta['property'], 'DETECTED' if meta['property'] in meta['detected_by'] else 'MISSED', res))
+    # rows of changes that were not run this time are kept as they are
+    lines = {}
+    rp = os.path.join(SEEDED, 'RESULTS.md')
+    if os.path.exists(rp):
+        for l in open(rp):
+            m = re.match(r'\| (C\d\d[a-z]?) \|', l)
+            if m: lines[m.group(1)] = l
+    for sid, prop, verdict, res in rows:
+        own = res.get(prop, {})
+        others = ', '.join('%s (%s)' % (p, v['keys'][0] if v['keys'] else '') for p, v in res.items() if p != prop and v['rc'] == 1)
+        lines[sid] = '| %s | %s | %s | %s | %s |\n' % (sid, prop, verdict, '; '.join(own.get('keys', [])[:3]), others)
+    with open(rp, 'w') as f:
+        f.write('# Seeded changes versus the registered checks (%s tier, VERIF_SEED=%s; rows are from the latest run of each change)\n\n' % (tier, seed))
+        f.write('| change | breaks | own check | violation keys reported (first few) | other checks that fire |\n|---|---|---|---|---|\n')
+        for sid in sorted(lines): f.write(lines[sid])
+    print(open(rp).read()); return
     with open(os.path.join(SEEDED, 'RESULTS.md'), 'w') as f:
         f.write('# Seeded changes versus the registered checks (%s tier, VERIF_SEED=%s)\n\n' % (tier, seed))
         f.write('| change | breaks | own check | violation keys reported (first few) | other checks that fire |\n|---|---|---|---|---|\n')
